@@ -171,7 +171,7 @@ def batches(rng, tier):
     for _ in range(5 if thorough else 3):
         frontier = [v + [t] for v in frontier for t in toks]
         vecs += frontier
-    ops = [f"nextarg {','.join(v) if v else '_'} {c}" for v in vecs for c in ctxs]
+    ops = [f"nextarg {'__' if v == [''] else ','.join(v) if v else '_'} {c}" for v in vecs for c in ctxs]
     yield Batch("next_arg", ops, exhaustive=True, note="all argument vectors over 9 tokens incl. '-', '--' and the empty string, 4 option-name contexts")
     # ---- streams in every state
     ops = []
